@@ -5,6 +5,7 @@ mod fw;
 mod gen;
 mod oracle;
 mod props;
+mod ser;
 mod zoo;
 
 use fw::{Ctx, Tier};
